@@ -6,6 +6,7 @@ package mocker
 import (
 	"reflect"
 	"runtime"
+	"strings"
 )
 
 // functionName 获取函数名称
@@ -29,6 +30,26 @@ func packageName(def interface{}) string {
 		return t.Elem().PkgPath()
 	}
 	return t.PkgPath()
+}
+
+// symbolPkgPath 将包路径转换为符号表中函数名的前缀
+// 链接器会对包路径中的个别字符进行转义(cmd/internal/objabi.PathToPrefix): 最后一段路径中的 '.', 以及 '%'、'"'、空白和非 ASCII 字符,
+// 比如 gopkg.in/yaml.v2 中的函数在符号表中名称为 gopkg.in/yaml%2ev2.xxx
+func symbolPkgPath(pkg string) string {
+	const hex = "0123456789abcdef"
+	slash := strings.LastIndex(pkg, "/")
+	var b strings.Builder
+	for i := 0; i < len(pkg); i++ {
+		c := pkg[i]
+		if c <= ' ' || (c == '.' && i > slash) || c == '%' || c == '"' || c >= 0x7F {
+			b.WriteByte('%')
+			b.WriteByte(hex[c>>4])
+			b.WriteByte(hex[c&0xF])
+			continue
+		}
+		b.WriteByte(c)
+	}
+	return b.String()
 }
 
 // inTypes 获取类型
